@@ -285,6 +285,9 @@ theorem semV_local (specs : List Spec) : Local (uniqWb (mkWb specs)) (semV specs
   · next a b heq =>
     have hd : (mkWb specs).deps i = [a, b] := by simp [mkWb, heq, Spec.deps, Fml.refs]
     rw [h' a (by rw [hd]; simp), h' b (by rw [hd]; simp)]
+  · next a b heq =>
+    have hd : (mkWb specs).deps i = [a, b] := by simp [mkWb, heq, Spec.deps, Fml.refs]
+    rw [h' a (by rw [hd]; simp), h' b (by rw [hd]; simp)]
   · exact sem_local specs i e e' h'
 
 open EngineInst in
